@@ -223,7 +223,10 @@ def r4_template_depths(ctx, rule="C15.R4"):
         if derived[instr] != frozen[instr]:
             ctx.notes.append("VM stack effect of %s changed: %s (was %s); the template analysis "
                              "uses the derived value" % (instr, derived[instr], frozen[instr]))
-        ctx.ok(rule, key, T.interpret_one.loc, "effect %s" % derived[instr])
+        ctx.decide(len(derived[instr]) <= 1, rule, key, T.interpret_one.loc, "effect %s" % derived[instr],
+                   "the VM arm of Instruction::%s changes the stacks by different amounts on different "
+                   "non-failing paths (%s): the generator's templates assume one fixed effect per "
+                   "instruction, so a stack leaks or underflows on one of the paths" % (instr, derived[instr]))
     stmt = prog.method("InstructionGenerator", "visit", trait=emit.STATEMENT_TRAIT_REF)
     block = prog.method("InstructionGenerator", "visit", trait=emit.STATEMENTS_TRAIT_REF)
     zero = T.cf.zero
